@@ -189,7 +189,7 @@ func (g *gen) execCall(instr ssa.Instruction, c *ssa.CallCommon, v ssa.Value, st
 		return
 	}
 	// unknown: sound havoc
-	if g.opts.frames {
+	if g.opts.frames && !g.con.flag("nocallframe") {
 		g.frameUnknownCall(instr, name, st)
 	}
 	g.note("call to %s without contract in %s: heap havocked", name, g.vc.Func)
@@ -489,7 +489,7 @@ func (g *gen) contractCallGeneric(instr ssa.Instruction, con *Contract, sig *typ
 	}
 	// 2. frame
 	mods := g.instantiateModifies(con, pre)
-	if g.opts.frames {
+	if g.opts.frames && !g.con.flag("nocallframe") {
 		g.frameCall(instr, cname, mods, preState)
 	}
 	// 3. effect
@@ -497,7 +497,7 @@ func (g *gen) contractCallGeneric(instr ssa.Instruction, con *Contract, sig *typ
 	calleeRO := ""
 	if con.ReadonlyIf != nil {
 		calleeRO = g.specBool(pre, con.ReadonlyIf.Expr)
-		if g.opts.frames {
+		if g.opts.frames && !g.con.flag("nocallframe") {
 			// the callee may write any document node when its condition is false: the caller must be allowed to
 			callerOK := "false"
 			if c := g.roCond(); c != "" {
@@ -593,6 +593,19 @@ func (g *gen) modClauseOf(m *Clause, e *env) []modClause {
 			{heap: "H.list.Element.Value", member: func(r string) string { return pv(app("elList", r)) }, text: m.Text},
 		}
 		_ = star
+	}
+	if sel, ok := x.(*ast.SelectorExpr); ok {
+		if id, ok := sel.X.(*ast.Ident); ok && id.Name == "anynode" {
+			// the field of ANY document node (used for "this function's own stores touch only attribute X")
+			ot := g.P.candidateNodePtr()
+			st, _ := structUnder(ot)
+			for i := 0; i < st.NumFields(); i++ {
+				if st.Field(i).Name() == sel.Sel.Name {
+					return []modClause{{heap: heapField(deref(ot), i), member: func(string) string { return "true" }, text: m.Text}}
+				}
+			}
+			g.specFail(x, "modifies: no field %s", sel.Sel.Name)
+		}
 	}
 	switch n := x.(type) {
 	case *ast.SelectorExpr:
